@@ -134,8 +134,12 @@ def gen_history(rnd: random.Random, flavor: dict) -> dict:
                 entry["criteria"] = "Canonical"
             moves.append(entry)
         if rnd.random() < ext_p:
-            which = rnd.choice(["ref", "mixed"])
-            if which == "ref":
+            which = rnd.choice(["ref", "mixed", "nested_ref"])
+            if which == "nested_ref" and any(m["name"] == "disp" and m["move"]["type"] == "disp" for m in moves):
+                # the same object standalone in the table AND inside a composite
+                moves.append({"name": "nested", "criteria": "Canonical",
+                              "move": {"type": "sum", "items": [{"type": "ref", "of": "disp"}, disp_move(list(plabels))]}})
+            elif which == "ref" or which == "nested_ref":
                 moves.append({"name": "again", "move": {"type": "ref", "of": rnd.choice([m["name"] for m in moves])},
                               "criteria": "GrandCanonical"})
             else:
@@ -282,7 +286,7 @@ def _drop_atom(sc, idx):
     a["constraints"] = newc
 
     def fix(m):
-        if m["type"] in ("sum",):
+        if m["type"] in ("sum", "wrap"):
             for it in m["items"]:
                 fix(it)
         elif m["type"] == "mul":
